@@ -214,6 +214,13 @@ func Quiesce() {
 	time.Sleep(20 * time.Millisecond)
 }
 
+var resetHooks []func()
+
+// RegisterReset registers a function that restores process-global state a harness
+// may have changed (native replays of one run share a process; under the engine
+// every path starts from freshly initialised globals).
+func RegisterReset(f func()) { resetHooks = append(resetHooks, f) }
+
 // Thorough reports the tier.
 func Thorough() bool { return thorough }
 
@@ -237,6 +244,9 @@ func RunReplays(harnesses map[string]func()) {
 		if h == nil {
 			fmt.Printf("VERIFND-END %s status=noharness\n", filepath.Base(f))
 			continue
+		}
+		for _, f := range resetHooks {
+			f()
 		}
 		cur, pos, overrun = &rf, 0, 0
 		thorough = rf.Tier == "thorough"
